@@ -500,11 +500,19 @@ def rule_action_map(facts, rep):
 
     def is_params(e):
         e = hir.peel(e)
-        return hir.is_call(e, P + "params") and hir.is_local(e["args"][0], "self")
+        # through the accessor (whose body the accessors rule reads) or the field itself
+        return (hir.is_call(e, P + "params") and hir.is_local(e["args"][0], "self")) or self_field(e, "params")
 
     def is_inter(e):
         e = hir.peel(e)
-        return hir.is_call(e, P + "intermediates") and hir.is_local(e["args"][0], "self")
+        if hir.is_call(e, P + "intermediates") and hir.is_local(e["args"][0], "self"):
+            return True
+        # the accessor written in place: &self.intermediates[..self.intermediate_idx]
+        if e.get("k") == "index" and self_field(e["e"], "intermediates"):
+            r_ = hir.simp(e["i"])
+            f_ = {x["name"]: x["e"] for x in r_.get("fields", [])} if r_.get("k") == "struct" else {}
+            return hir.last_seg(r_.get("path", {}).get("path")) == "RangeTo" and self_field(f_.get("end"), "intermediate_idx")
+        return False
 
     def is_ign(e):
         return self_field(e, "ignoring")
